@@ -160,6 +160,7 @@ pub fn fnv(data: &[u8]) -> u64 {
 
 thread_local! {
     static LAST_PANIC: std::cell::RefCell<Option<String>> = const { std::cell::RefCell::new(None) };
+    static GUARD_DEPTH: std::cell::Cell<u32> = const { std::cell::Cell::new(0) };
 }
 
 /// Install a panic hook that records message + location silently (per thread).
@@ -173,13 +174,20 @@ pub fn install_quiet_panic_hook() {
             "<non-string panic payload>".to_string()
         };
         let loc = info.location().map(|l| format!("{}:{}", l.file(), l.line())).unwrap_or_default();
+        if GUARD_DEPTH.with(|d| d.get()) == 0 {
+            // not inside a guarded subject call: this is a bug of the harness itself
+            eprintln!("MACHINERY-ERROR: harness panic: {} at {}", msg, loc);
+        }
         LAST_PANIC.with(|p| *p.borrow_mut() = Some(format!("{} at {}", msg, loc)));
     }));
 }
 
 /// Run `f`, converting a panic into Err(message at location).
 pub fn guarded<T>(f: impl FnOnce() -> T) -> Result<T, String> {
-    match catch_unwind(AssertUnwindSafe(f)) {
+    GUARD_DEPTH.with(|d| d.set(d.get() + 1));
+    let r = catch_unwind(AssertUnwindSafe(f));
+    GUARD_DEPTH.with(|d| d.set(d.get() - 1));
+    match r {
         Ok(v) => Ok(v),
         Err(_) => Err(LAST_PANIC.with(|p| p.borrow_mut().take()).unwrap_or_else(|| "panic (no message)".into())),
     }
